@@ -41,6 +41,10 @@ type c05Case struct {
 	Exhaustive bool     `json:"exhaustive,omitempty"` // the verifier is the exhaustive one used for global rules (threshold ignored)
 	Git       int       `json:"git"` // -2: no git object, -1: unsigned object, k: signed by key k
 	NoEnv     bool      `json:"no_env"`
+	// Warm: before the envelope under test is verified, the envelope the lifted
+	// signatures were taken from (same signatures, their own payload) is verified
+	// by the same verifier - as happens when a repository holds both attestations.
+	Warm bool `json:"warm,omitempty"`
 	Sigs      []c05Sig  `json:"sigs"`
 }
 
@@ -137,6 +141,7 @@ func genC05(rt *rapid.T) c05Case {
 			sg.Lifted = rapid.IntRange(0, 5).Draw(rt, "lifted") == 0
 			c.Sigs = append(c.Sigs, sg)
 		}
+		c.Warm = rapid.Bool().Draw(rt, "warm")
 	}
 	return c
 }
@@ -210,6 +215,18 @@ func runC05(s *kit.Session, c c05Case) *kit.Failure {
 	v := policy.VerifNewVerifier(st, "rule", principals, c.Threshold)
 	if c.Exhaustive {
 		v = policy.VerifNewExhaustiveVerifier(st, "exhaustive", principals)
+	}
+	if c.Warm && env != nil && len(c.Prins) > 0 {
+		// the source of the lifted signatures: valid there, must not become valid here
+		src := &sslibdsse.Envelope{PayloadType: dsse.PayloadType, Payload: base64.StdEncoding.EncodeToString([]byte(`{"statement":"B"}`))}
+		for i, sg := range c.Sigs {
+			if sg.Lifted {
+				src.Signatures = append(src.Signatures, env.Signatures[i])
+			}
+		}
+		if len(src.Signatures) > 0 {
+			_, _ = policy.VerifNewExhaustiveVerifier(st, "warm", principals).Verify(context.Background(), githash.ZeroHash, src)
+		}
 	}
 	got, err := v.Verify(context.Background(), gitID, env)
 
@@ -466,7 +483,7 @@ func TestC05(t *testing.T) {
 		kit.DoReplay(s, t, rf, run)
 		return
 	}
-	s.SetRule("rapid: rules over 0-4 principals (v0.1 keys, v0.2 keys, persons with 1-2 keys; keys shared between principals in a third of the cases), thresholds 0..5 (one case in five uses the exhaustive verifier that global rules count with), Git object {absent, unsigned, signed by a trusted or an untrusted key}, envelope {absent, 0-6 signatures by any multiset of trusted/untrusted keys, with own/empty/foreign keyid fields, some lifted from another payload}. Oracle: maximum bipartite matching principal-key over validly signing keys; soundness always, exactness when principals share no keys. Plus a bounded-exhaustive enumeration (see enumeration_bound). Non-trivial: >=2 principals and (shared key | person whose two keys both signed | duplicate or lifted signature | Git and envelope signature by the same principal)")
+	s.SetRule("rapid: rules over 0-4 principals (v0.1 keys, v0.2 keys, persons with 1-2 keys; keys shared between principals in a third of the cases), thresholds 0..5 (one case in five uses the exhaustive verifier that global rules count with), Git object {absent, unsigned, signed by a trusted or an untrusted key}, envelope {absent, 0-6 signatures by any multiset of trusted/untrusted keys, with own/empty/foreign keyid fields, some lifted from another payload - in half of the cases that other envelope is verified first by the same process}. Oracle: maximum bipartite matching principal-key over validly signing keys; soundness always, exactness when principals share no keys. Plus a bounded-exhaustive enumeration (see enumeration_bound). Non-trivial: >=2 principals and (shared key | person whose two keys both signed | duplicate or lifted signature | Git and envelope signature by the same principal)")
 	kit.Campaign(s, t, "verify", "verify", s.Budget(40_000, 1_000_000), genC05, run)
 	// bounded-exhaustive part of the quantifier: every rule over <=2 (quick) /
 	// <=3 (thorough) principals x every threshold x every Git signer x every
